@@ -38,7 +38,7 @@ pub fn run(a: &Args) {
         let mut skb = [0u8; 32]; for b in skb.iter_mut() { *b = rng.next() as u8; } skb[0] |= 1; skb[0] &= 0x7F;
         let sk = SecretKey::from_slice(&skb).unwrap();
         let signer = PublicKey::from_secret_key(&secp, &sk);
-        let preds: Vec<Predicate> = (0..rng.range(0, 3)).map(|_| rand_pred(&mut rng)).collect();
+        let preds: Vec<Predicate> = (0..rng.range(0, 4)).map(|_| rand_pred(&mut rng)).collect();
         let mut salt = [0u8; 32]; if rng.chance(3, 4) { for b in salt.iter_mut() { *b = rng.next() as u8; } }
         let contract = Contract { predicates: preds.clone(), salt };
         let signed = sign::contract::sign(contract.clone(), &sk);
